@@ -995,7 +995,7 @@ def interleave(trace, T, data, enc, model, k, res):
         i = order[step] % len(iters) if step < len(order) else step % len(iters)
         step += 1
         if done[i] is not None:
-            if step > len(order) + 50 * len(iters) + 500:
+            if step > len(order) + (50 + 2 * len(trace['graphs'])) * len(iters) + 500:
                 break
             continue
         try:
